@@ -57,7 +57,10 @@ def gen_case(rng, tier, index):
         for _ in range(rng.randint(1, 14)):
             steps.append([rng.choice(["create", "create", "create", "remove", "flush", "remove_deleted", "ext_delete",
                                       "read", "remove_fails"]), rng.randrange(1 << 16)])
-        return {"kind": "tmp-single", "ops": steps}
+        # the directory reached through a symbolic link; files created before the context is entered; a second,
+        # independent pool alive at the same time
+        return {"kind": "tmp-single", "ops": steps, "via_symlink": rng.random() < 0.25,
+                "pre_create": rng.choice([0, 0, 0, 1, 2]), "companion": rng.random() < 0.3}
     if k < 7:
         children = []
         for _ in range(rng.randint(1, 3)):
@@ -65,7 +68,8 @@ def gen_case(rng, tier, index):
                              "removes_own": rng.random() < 0.3})
         return {"kind": "tmp-multi", "ops": children, "parent_before": rng.randint(0, 2), "parent_after": rng.randint(0, 2),
                 "flush_mid": rng.random() < 0.8, "parent_raises": rng.random() < 0.4,
-                "fork_after_flush": rng.random() < 0.3, "two_rounds": rng.random() < 0.5}
+                "fork_after_flush": rng.random() < 0.3, "two_rounds": rng.random() < 0.5,
+                "pre_create": rng.choice([0, 0, 1, 2])}
     if k == 7:
         return {"kind": "tmp-race", "ops": [{"creates": rng.randint(20, 60), "pace": rng.choice([0, 0.0005, 0.002])}
                                             for _ in range(rng.randint(1, 3))],
@@ -125,18 +129,28 @@ def run_tmp_single(case, res):
     steps = case["ops"]
     routes = ["normal", "return", "break"] + [f"raise@{j}" for j in range(len(steps) + 1)]
     for route in routes:
-        _tmp_single_once(steps, route, res)
+        _tmp_single_once(case, steps, route, res)
         res.count("tmp_single_executions")
         res.count("tmp_fault_positions" if route.startswith("raise") else "tmp_clean_exits")
         if len(steps) >= 2:
             res.seen(("tmp", tuple(s[0] for s in steps), route))
 
 
-def _tmp_single_once(steps, route, res):
+def _tmp_single_once(case, steps, route, res):
     from windpyutils.files import TmpPool
     d = fresh_dir("tmp")
+    pool_dir = d
+    if case.get("via_symlink"):
+        # the pool is given a path that leads to its directory through a symbolic link; paths are compared as the
+        # pool returned them
+        pool_dir = os.path.join(scratch(), "tmp-link")
+        if os.path.lexists(pool_dir):
+            os.remove(pool_dir)
+        os.symlink(d, pool_dir)
+        res.count("tmp_single_runs_through_a_symlinked_directory")
     ever = []
     state = {"listed": []}
+    comp = {}
 
     def fail(mech, msg):
         raise Violation(mech, f"TmpPool history {[s[0] for s in steps]} left by {route}: {msg}",
@@ -145,7 +159,12 @@ def _tmp_single_once(steps, route, res):
     def observe(pool, desc):
         res.evaluations += 1
         listed = state["listed"]
-        on_disk = sorted(os.path.join(d, f) for f in os.listdir(d))
+        on_disk = sorted(os.path.join(pool_dir, f) for f in os.listdir(d))
+        if comp:
+            cp, cfiles, cd = comp["pool"], comp["files"], comp["dir"]
+            if [cp[i] for i in range(len(cp))] != cfiles or sorted(os.path.join(cd, f) for f in os.listdir(cd)) != sorted(cfiles):
+                fail("other-pool-disturbed", f"after {desc}: a second, independent pool lists "
+                     f"{[cp[i] for i in range(len(cp))]} and its directory holds {sorted(os.listdir(cd))}, it created {cfiles}")
         if len(pool) != len(listed) or [pool[i] for i in range(len(pool))] != listed:
             fail("pool-listing", f"after {desc}: pool lists {[pool[i] for i in range(len(pool))]}, expected {listed}")
         expect_disk = sorted(p for p in listed if p not in state.get("ext_deleted", set()))
@@ -232,7 +251,33 @@ def _tmp_single_once(steps, route, res):
             return "returned"
 
     def run():
-        pool_obj = TmpPool(d)
+        if case.get("companion"):
+            cd = fresh_dir("tmp-companion")
+            cpool = TmpPool(cd)
+            cpool.__enter__()
+            comp.update(pool=cpool, dir=cd, files=[cpool.create(), cpool.create()])
+            res.count("tmp_single_runs_next_to_a_second_pool")
+        try:
+            run_main()
+        finally:
+            if comp:
+                cp, cfiles, cd = comp["pool"], comp["files"], comp["dir"]
+                comp.clear()
+                intact = [cp[i] for i in range(len(cp))] == cfiles and all(os.path.exists(x) for x in cfiles)
+                cfiles.append(cp.create())
+                cp.__exit__(None, None, None)
+                if not intact or os.listdir(cd):
+                    fail("other-pool-disturbed", f"a second, independent pool: intact after the first one ended: {intact}; "
+                         f"left in its directory after its own exit: {os.listdir(cd)}")
+
+    def run_main():
+        pool_obj = TmpPool(pool_dir)
+        for _ in range(case.get("pre_create", 0)):
+            # files created before the context is entered are the pool's files like any other
+            p0 = pool_obj.create()
+            ever.append(p0)
+            state["listed"].append(p0)
+            res.count("tmp_files_created_before_enter")
         with pool_obj as pool:
             observe(pool, "enter")
             if route == "break":
@@ -310,7 +355,13 @@ def _tmp_multi_round(case, res, d, pool_obj, rnd):
                         f"fork_after_flush={case['fork_after_flush']}): {msg}", {"dir": sorted(os.listdir(d))[:8]})
 
     try:
+        for _ in range(case.get("pre_create", 0)):
+            ever.append(pool_obj.create())      # before the context is entered
+            res.count("tmp_files_created_before_enter")
         with pool_obj as pool:
+            if len(pool) != len(ever):
+                fail("pool-listing", f"{'second use: ' if rnd else ''}on entering the context the pool lists {len(pool)} paths, "
+                     f"{len(ever)} were created before")
             for _ in range(case["parent_before"]):
                 ever.append(pool.create())
             if case["fork_after_flush"] and case["flush_mid"]:
